@@ -416,7 +416,8 @@ class MCNP_Problem:
                 ([self.title], False),
                 (self.cells, True),
                 (self.surfaces, True),
-                (self.data_inputs, True),
+                # the data block is terminated below, after the cell modifiers that go to it
+                (self.data_inputs, False),
             ]
             for objects, terminate in objects_list:
                 for obj in objects:
@@ -435,6 +436,8 @@ class MCNP_Problem:
                         fh.write(line + "\n")
                 if terminate:
                     fh.write("\n")
+            # cell modifiers that were not in the original data block still belong to it:
+            # MCNP stops reading at the blank line that ends the data block.
             for line in self.cells._run_children_format_for_mcnp(
                 self.data_inputs, self.mcnp_version
             ):
